@@ -395,3 +395,142 @@ def rt_leaf_grid(prop, cname=None, first_only=False, count=None):
     if count is not None:
         count.append(n)
     return fails
+
+
+# --------------------------------------------------------------------------------------
+# RationalQuadraticSpline
+def build_spline_raw(x_pos, y_pos, derivatives, interval):
+    """spline whose (unwrapped) knot arrays are given directly"""
+    import equinox as eqx
+    from flowjax.bijections import RationalQuadraticSpline
+
+    b = RationalQuadraticSpline(knots=len(x_pos) - 2, interval=tuple(interval))
+    b = eqx.tree_at(lambda s: (s.x_pos, s.y_pos, s.derivatives), b, (jnp.asarray(x_pos, float), jnp.asarray(y_pos, float), jnp.asarray(derivatives, float)),
+                    is_leaf=lambda v: hasattr(v, "unwrap"))
+    return b
+
+
+def build_spline_perturbed(knots, interval, seed, scale=1.0):
+    """real constructor, then the raw trainable arrays are moved (what training does)"""
+    import equinox as eqx
+    from flowjax.bijections import RationalQuadraticSpline
+
+    b = RationalQuadraticSpline(knots=knots, interval=interval)
+    if seed is None:
+        return b
+    rng = np.random.default_rng(seed)
+    params, static = eqx.partition(b, eqx.is_inexact_array)
+    leaves, tdef = jax.tree_util.tree_flatten(params)
+    leaves = [l + scale * jnp.asarray(rng.normal(size=l.shape)) for l in leaves]
+    return eqx.combine(jax.tree_util.tree_unflatten(tdef, leaves), static)
+
+
+def spline_ref(xp, yp, d, interval, x):
+    """independent NumPy reference written from eq. 4 of Durkan et al."""
+    lo_, hi_ = interval
+    if x < lo_ or x > hi_:
+        return x
+    k = int(np.clip(np.searchsorted(xp, x, side="right") - 1, 0, len(xp) - 2))
+    w, h = xp[k + 1] - xp[k], yp[k + 1] - yp[k]
+    s, xi = h / w, (x - xp[k]) / w
+    return yp[k] + h * (s * xi**2 + d[k] * xi * (1 - xi)) / (s + (d[k + 1] + d[k] - 2 * s) * xi * (1 - xi))
+
+
+def rt_spline(prop, b, x=None, y=None, label="spline"):
+    import equinox as eqx
+    from flowjax.wrappers import unwrap
+
+    ub = unwrap(b)
+    xp, yp, dd = (np.asarray(v, float) for v in (ub.x_pos, ub.y_pos, ub.derivatives))
+    interval = tuple(float(v) for v in b.interval)
+    fails = []
+    isf = lambda v: bool(jnp.all(jnp.isfinite(v)))  # noqa: E731
+    params, static = eqx.partition(b, eqx.is_inexact_array)
+
+    def pgrad(fn_name, v):
+        def f(p):
+            return jnp.sum(getattr(eqx.combine(p, static), fn_name)(v)[1] if fn_name.endswith("log_det") else getattr(eqx.combine(p, static), fn_name)(v))
+        g = jax.grad(f)(params)
+        return all(isf(l) for l in jax.tree_util.tree_leaves(g))
+
+    if x is not None:
+        xa = jnp.asarray(float(x))
+        t = b.transform(xa)
+        t2, ld = b.transform_and_log_det(xa)
+        if prop == "C07":
+            r = spline_ref(xp, yp, dd, interval, float(x))
+            if not _close(t, r, tol=1e-8):
+                fails.append(f"transform({x!r}) = {float(t)!r}; eq. 4 / identity-outside reference gives {r!r}")
+        if prop == "C01":
+            back = b.inverse(t)
+            dloc = float(ub.derivative(xa))
+            cond = max(1.0, 1.0 / max(dloc, 1e-12))
+            if not _close(back, x, cond, 1e-7):
+                fails.append(f"inverse(transform({x!r})) = {float(back)!r}")
+            if not _close(t2, t):
+                fails.append(f"transform_and_log_det({x!r})[0] = {float(t2)!r} != transform = {float(t)!r}")
+        if prop == "C02":
+            inside = interval[0] < float(x) < interval[1] and not np.any(np.isclose(xp, float(x), atol=1e-12))
+            if inside:
+                dfwd = jax.jacfwd(b.transform)(xa)
+                if isf(dfwd) and not _close(ld, jnp.log(jnp.abs(dfwd)), tol=1e-7):
+                    fails.append(f"forward log-det at x={x!r} is {float(ld)!r}; autodiff gives {float(jnp.log(jnp.abs(dfwd)))!r}")
+        if prop == "C18" and isf(t):
+            for nm in ("transform", "transform_and_log_det"):
+                g = jax.grad(lambda v: jnp.sum(getattr(b, nm)(v)[1] if nm.endswith("log_det") else getattr(b, nm)(v)))(xa)
+                if not isf(g):
+                    fails.append(f"d {nm}/dx at x={x!r} is {float(g)!r}")
+                if not pgrad(nm, xa):
+                    fails.append(f"parameter gradient of {nm} at x={x!r} is not finite")
+    if y is not None:
+        ya = jnp.asarray(float(y))
+        iv = b.inverse(ya)
+        iv2, ldi = b.inverse_and_log_det(ya)
+        if prop == "C01" and isf(iv):
+            fw = b.transform(iv)
+            cond = max(1.0, float(ub.derivative(iv)))
+            if not _close(fw, y, cond, 1e-7):
+                fails.append(f"transform(inverse({y!r})) = {float(fw)!r} (inverse = {float(iv)!r})")
+            if not _close(iv2, iv):
+                fails.append(f"inverse_and_log_det({y!r})[0] = {float(iv2)!r} != inverse = {float(iv)!r}")
+        if prop == "C02" and isf(iv):
+            _, ldf = b.transform_and_log_det(iv)
+            if not _close(ldi, -ldf, tol=1e-7):
+                fails.append(f"inverse log-det at y={y!r} is {float(ldi)!r}; minus forward log-det at the inverse image is {float(-ldf)!r}")
+        if prop == "C18" and isf(iv):
+            for nm in ("inverse", "inverse_and_log_det"):
+                g = jax.grad(lambda v: jnp.sum(getattr(b, nm)(v)[1] if nm.endswith("log_det") else getattr(b, nm)(v)))(ya)
+                if not isf(g):
+                    fails.append(f"d {nm}/dy at y={y!r} is {float(g)!r}")
+                if not pgrad(nm, ya):
+                    fails.append(f"parameter gradient of {nm} at y={y!r} is not finite")
+    return [f"{label}: {f}" for f in fails]
+
+
+SPLINE_CONFIGS = [(4, (-2.0, 3.0), 3), (4, (-2.0, 3.0), None), (3, (1.0, 3.0), 5), (5, (-1.0, 1.0), 7), (2, (-4.0, -1.0), 11)]
+
+
+def rt_spline_grid(prop, first_only=False, count=None):
+    from flowjax.wrappers import unwrap
+
+    fails, n = [], 0
+    for knots, interval, seed in SPLINE_CONFIGS:
+        b = build_spline_perturbed(knots, interval, seed)
+        ub = unwrap(b)
+        pts = set()
+        for arr in (np.asarray(ub.x_pos, float), np.asarray(ub.y_pos, float)):
+            for v in arr:
+                pts.update([float(v), float(np.nextafter(v, np.inf)), float(np.nextafter(v, -np.inf))])
+            pts.update(float(v) for v in (arr[:-1] + arr[1:]) / 2)
+        lo_, hi_ = interval
+        pts.update([0.0, lo_ - 1.0, hi_ + 1.0, lo_ - 1e-9, hi_ + 1e-9, 1e4, -1e4, 0.5])
+        label = f"RationalQuadraticSpline(knots={knots}, interval={interval}, raw params perturbed with seed {seed})"
+        for v in sorted(pts):
+            n += 1
+            for f in rt_spline(prop, b, x=v, y=v, label=label):
+                fails.append(dict(what=f, case=dict(knots=knots, interval=interval, seed=seed, point=v)))
+                if first_only:
+                    return fails
+    if count is not None:
+        count.append(n)
+    return fails
